@@ -7,14 +7,15 @@ import iomodel
 
 RULE = ("files produced by the independent writer of harness/ioops.py (not praatio's emitters) from random tier data: labels "
         "with quotes / newlines / Unicode, empty tiers, blank-labelled intervals, duplicate tier names; numerals in plain, "
-        "integer and exponent notation, '-0' starts x layouts {long, short, elan-long, tight-long (no blank before '='), json, textgrid_json} x encodings "
+        "integer and exponent notation, '-0' starts, negative times (a fifth of the files: wholly below 0, or on both sides of it), tier names with "
+        "surrounding blanks / tabs and with line breaks x layouts {long, short, elan-long, tight-long (no blank before '='), json, textgrid_json} x encodings "
         "{utf-8, utf-8-sig, utf-16 LE/BE with BOM} x newline {LF, CRLF} x includeEmptyIntervals x duplicateNamesMode; "
         "each file is opened with textgrid.openTextgrid and compared with the data it was written from; the decoded text is also "
         "given to the Lean reader model. non-trivial = the data has at least one entry")
 TRUSTED = ["oracle: the data the file was written from (harness/props/C03.py:oracle); Python codecs; the independent writer "
            "ioops.spec_write/json_write (its output is decoded back by the independent reader in the same run)"]
 ASSUMPTIONS = ["labels and names avoid the reader-splitting keywords of known finding A10 (C01 reports those)",
-               "names non-empty, single-line, trimmed; no carriage returns in labels"]
+               "names non-empty; no carriage returns in labels"]
 LAYOUTS = ["long", "short", "elan", "tight", "json", "textgrid_json"]
 ENCODINGS = ["utf-8", "utf-8-sig", "utf-16", "utf-16-le-bom", "utf-16-be-bom"]
 
@@ -141,7 +142,7 @@ SAFE_LABELS = [l for l in ioops.PLAIN_LABELS if ioops.keyword_cause([l]) is None
 
 def gen_data(rnd, style):
     import props.C01 as C01
-    g = C01.despace(ioops.gen_tg(rnd, "simple" if style != "exp" else "full", labels=SAFE_LABELS + ["", ""], names=["w", "p", "t 1", "é", "n\"q"]), rnd)
+    g = C01.despace(ioops.gen_tg(rnd, "simple" if style != "exp" else "full", labels=SAFE_LABELS + ["", ""], names=["w", "p", "t 1", "é", "n\"q"] + ioops.BLANK_NAMES + ioops.NL_NAMES), rnd)
     d = {"lo": g["lo"], "hi": g["hi"], "tiers": g["tiers"]}
     if style == "exp":
         # make sure some numerals really use an exponent
@@ -152,6 +153,8 @@ def gen_data(rnd, style):
         d["tiers"][1]["name"] = d["tiers"][0]["name"]          # duplicate names
         if len(d["tiers"]) > 2 and rnd.random() < 0.5:
             d["tiers"][2]["name"] = d["tiers"][0]["name"]
+    if rnd.random() < 0.2:
+        d = ioops.negate_tg(d, rnd)             # negative times: all below 0, or on both sides of it (A30, fixed)
     return d
 
 
@@ -172,6 +175,32 @@ def corpus():
                                         {"k": "P", "name": 'class= "IntervalTier"', "es": [[1.0, 'class="IntervalTier"']], "lo": 0.0, "hi": 2.0}]}
     for nl in ("\n", "\r\n"):
         yield {"op": "open", "data": d3, "layout": "tight", "style": "plain", "enc": "utf-8", "newline": nl, "iei": True, "dup": "error", "negzero": False}
+    # A30 (fixed): negative times (Praat writes them for a time domain that starts before 0) in every layout
+    d4 = {"lo": -3.0, "hi": 2.0, "tiers": [{"k": "I", "name": "a", "es": [[-2.5, -1.0, "x"], [-1.0, 0.0, ""], [0.5, 1.0, "y"]], "lo": -3.0, "hi": 2.0},
+                                         {"k": "P", "name": "p", "es": [[-2.0, "m"], [-1e-05, "tiny"], [1.5, "n"]], "lo": -3.0, "hi": 2.0}]}
+    for layout in LAYOUTS:
+        for style in ("plain", "exp", "float"):
+            yield {"op": "open", "data": d4, "layout": layout, "style": style, "enc": "utf-8", "newline": "\n", "iei": True, "dup": "error", "negzero": style == "plain"}
+    # A31 (fixed): tier names with surrounding blanks / tabs in every layout (long and short encodings open to equal textgrids)
+    d5 = {"lo": 0.0, "hi": 2.0, "tiers": [{"k": "I", "name": " a b ", "es": [[0.0, 1.0, "x"]], "lo": 0.0, "hi": 2.0},
+                                        {"k": "P", "name": "\tq ", "es": [[0.5, "m"]], "lo": 0.0, "hi": 2.0}]}
+    for layout in LAYOUTS:
+        yield {"op": "open", "data": d5, "layout": layout, "style": "plain", "enc": "utf-8", "newline": "\n", "iei": True, "dup": "error", "negzero": False}
+    # A32 (fixed): tier names with line breaks in every layout
+    d6 = {"lo": 0.0, "hi": 2.0, "tiers": [{"k": "I", "name": "c\nd", "es": [[0.0, 1.0, "x"]], "lo": 0.0, "hi": 2.0},
+                                        {"k": "P", "name": " e\n f\"g\" \n", "es": [[0.5, "m"]], "lo": 0.0, "hi": 2.0}]}
+    for layout in LAYOUTS:
+        for nl in ("\n", "\r\n"):
+            yield {"op": "open", "data": d6, "layout": layout, "style": "plain", "enc": "utf-8", "newline": nl, "iei": True, "dup": "error", "negzero": False}
+    for t in ['name = "a\nb" \n', 'name = "a\nb"x\n', 'name = "a" \nxmin = 0 \n', 'name = "a\n"\n"\n', 'name = "a\nb']:
+        for da in (True, False):
+            yield {"op": "u_text", "s": t, "kw": "name", "dotall": da}
+    for t in ['" a " \n', '"\ta\n "\nx', '"  ""q"" "\n', '" "\n', '""\n']:
+        for st in (True, False):
+            yield {"op": "u_fetchtext", "s": t, "i": 0, "anyerr": False, "strip": st}
+    for t in ["xmin = -1.5 ", "xmax = -1.5", "number= -0\n", "xmax = - 1", "xmin = --1", "xmax = -.5e-3 \n", "xmax = -e5", "xmin = +1", "xmax = -\n1"]:
+        for kw in ("xmin", "xmax", "number"):
+            yield {"op": "u_num", "s": t, "kw": kw, "neg": True, "ascii": True}
     for t in ['class= "IntervalTier"', 'class ="IntervalTier"', 'class="IntervalTier"', 'class = "IntervalTier"', 'class  = "IntervalTier"',
               'xclass = "IntervalTier"', 'mark = "class = ""IntervalTier"""', 'class =\n"IntervalTier"', 'class = "IntervalTier', 'class == "IntervalTier"']:
         yield {"op": "u_class", "s": t}
@@ -206,7 +235,8 @@ def unit_cases(rnd, n):
             yield {"op": "u_class", "s": rnd.choice([s, t, t])}
         else:
             t = "".join(rnd.choice(["\"", "\"\"", "a", " ", "\n", "b\"", "\"\"\"", "\t"]) for _ in range(rnd.randint(0, 10)))
-            yield {"op": rnd.choice(["u_fetchtext", "u_fetchrow"]), "s": t, "i": rnd.randint(0, max(0, len(t))), "anyerr": False}
+            yield {"op": rnd.choice(["u_fetchtext", "u_fetchrow"]), "s": t, "i": rnd.randint(0, max(0, len(t))), "anyerr": False,
+                   "strip": rnd.random() < 0.5}
 
 
 def derived(c, rnd):
